@@ -127,6 +127,12 @@ def sc_legacy(B, C, D):
     return o
 
 
+def _np_shape(a):
+    import numpy as _np
+
+    return _np.shape(a)
+
+
 def sc_stats(B, C, D, how, trips):
     gmm = B.mod("gmm")
     s, SP = sym_stats(B, C, D, "s", data_like=False)
@@ -145,8 +151,10 @@ def sc_stats(B, C, D, how, trips):
             new = gmm.GMMStats.from_hdf5(B.h5file(path, "r"))
         else:
             cur.save(path)
-            new = gmm.GMMStats(C + 1, D + 2)
+            # an existing container of another shape: both dimensions differ / only one of them
+            new = gmm.GMMStats(*{"load": (C + 1, D + 2), "load-features": (C, D + 2), "load-gaussians": (C + 2, D)}[how])
             new.load(B.h5file(path, "r"))
+            o_shape = new
         cur = new
     o = Outcome()
     o.equal("stats/n", cur.n, saved["n"])
@@ -156,6 +164,11 @@ def sc_stats(B, C, D, how, trips):
     o.claim("stats/t", cur.t == saved["t"])
     o.claim("stats/shape", (int(cur.n_gaussians), int(cur.n_features)) == (C, D) and tuple(cur.shape) == (C, D))
     o.claim("stats/package-equality", bool(cur == s) and bool(s == cur))
+    # the reloaded container is a working statistics object of the file's shape
+    summed = cur + s
+    o.equal("stats/usable-after-load", summed.n, [2 * v for v in saved["n"]] if not B.sym else [saved["n"][c] + saved["n"][c] for c in range(C)])
+    cur.reset()
+    o.claim("stats/reset-keeps-shape", tuple(_np_shape(cur.sum_px)) == (C, D))
     return o
 
 
@@ -168,7 +181,7 @@ def job_misc(P, C, D):
     for fl in ("scalar", "vector", "matrix"):
         P.run("resave-" + fl, sc_resave, dict(C=C, D=D, floor=fl), validate=1)
     P.run("legacy", sc_legacy, dict(C=C, D=D), validate=1)
-    for how, trips in (("path", 1), ("file", 1), ("load", 1), ("path", 2)):
+    for how, trips in (("path", 1), ("file", 1), ("load", 1), ("load-features", 1), ("load-gaussians", 1), ("path", 2)):
         P.run("stats-%s-%d" % (how, trips), sc_stats, dict(C=C, D=D, how=how, trips=trips), validate=1)
 
 
